@@ -130,7 +130,6 @@ def main():
                 anm_ver[g] = mv.group(1)
     else:
         unrec('Version::from_game')
-    hooks_sel = fn_body(anm, r'\n', 'game_hooks') if False else None
     mgh = re.search(r'fn game_hooks\(game: Game\)[^{]*\{(.*?)\n\}', anm, re.S)
     if not mgh or re.sub(r'\s', '', mgh.group(1)).find('matchversion{Version::V0=>Box::new(AnmHooks06{instr_format}),_=>Box::new(AnmHooks07{version,game,instr_format}),}') < 0:
         unrec('anm game_hooks: selection of AnmHooks06/AnmHooks07')
